@@ -337,9 +337,12 @@ def _run_query(cd, q, by_name, ids):
         f = cd.get_outgoing_neighbors_with_relation_type if k == "outnb" else cd.get_incoming_neighbors_with_relation_type
         return sorted({ids[_cname(w.clazz)] for w in f(c, rel)})
     if k == "ancestors":
-        cd.all_ancestors(cd.get_wrapped_class(by_name[q[1]]).index)
-        cd.parent_map  # noqa
-        return []
+        anc = cd.all_ancestors(cd.get_wrapped_class(by_name[q[1]]).index)
+        pm = cd.parent_map
+        nodes = cd._dependency_graph.nodes()
+        by_index = {w.index: w for w in nodes}
+        direct = sorted({ids[_cname(by_index[p].clazz)] for p in pm.get(cd.get_wrapped_class(by_name[q[1]]).index, set())})
+        return [sorted({ids[_cname(by_index[a].clazz)] for a in anc}), direct]
     if k == "assockeys":
         cd.get_assoc_keys_by_source(bool(q[1]))
         return []
@@ -374,6 +377,16 @@ def expected_answer(snap, q, ids):
         return sorted({e[2] for e in edges if e[1] == ids[q[1]] and e[0] == (1 if q[2] else 0)})
     if k == "innb":
         return sorted({e[1] for e in edges if e[2] == ids[q[1]] and e[0] == (1 if q[2] else 0)})
+    if k == "ancestors":   # everything reachable backwards over inheritance edges, and the direct bases
+        direct = sorted({e[1] for e in edges if e[0] == 0 and e[2] == ids[q[1]]})
+        seen, todo = set(direct), list(direct)
+        while todo:
+            x = todo.pop()
+            for e in edges:
+                if e[0] == 0 and e[2] == x and e[1] not in seen:
+                    seen.add(e[1])
+                    todo.append(e[1])
+        return [sorted(seen), direct]
     return []
 
 
@@ -579,7 +592,11 @@ def render_decls(decls, variant: str) -> List[str]:
     lines: List[str] = []
     for d in decls:
         if d["kind"] == "enum":
-            lines += [f"class {d['name']}(enum.Enum):", "    A = 1", "    B = 2", ""]
+            if d.get("meta"):   # an enumeration whose metaclass is a subclass of enum.EnumMeta
+                lines += [f"class _Meta{d['name']}(enum.EnumMeta):", "    pass", "",
+                          f"class {d['name']}(enum.Enum, metaclass=_Meta{d['name']}):", "    A = 1", "    B = 2", ""]
+            else:
+                lines += [f"class {d['name']}(enum.Enum):", "    A = 1", "    B = 2", ""]
             continue
         if d["kind"] == "plain":
             lines += [f"class {d['name']}:", "    pass", ""]
@@ -627,6 +644,8 @@ def query_coq(q, ids) -> str:
         return f"(QOutEdges {ids[q[1]]})"
     if k in ("outnb", "innb"):
         return f"({'QOutNeighbours' if k == 'outnb' else 'QInNeighbours'} {ids[q[1]]} {'EAssoc' if q[2] else 'EInh'})"
+    if k == "ancestors":
+        return f"(QAncestors {ids[q[1]]})"
     return "QOther"
 
 
@@ -715,7 +734,9 @@ def gen_query(rng, classes) -> list:
         return [rng.choice(["outnb", "innb"]), c, rng.chance(0.5)]
     if r < 0.7:
         return rng.choice([["nodes"], ["associations"], ["inheritance"]])
-    return rng.choice([["ancestors", c], ["assockeys", rng.chance(0.5)], ["neighbours", c, rng.chance(0.5)],
+    if r < 0.85:
+        return ["ancestors", c]
+    return rng.choice([["assockeys", rng.chance(0.5)], ["neighbours", c, rng.chance(0.5)],
                        ["roletaker", c], ["render", rng.chance(0.5)]])
 
 
@@ -748,6 +769,10 @@ def gen_ops(rng, classes) -> list:
             for c in classes:
                 ops.append(["query", t, ["outedges", c]])
             ops.append(["query", t, [rng.choice(["outnb", "innb"]), rng.choice(classes), rng.chance(0.5)]])
+            ops.append(["query", t, ["ancestors", rng.choice(classes)]])
+    elif rng.chance(0.5):
+        for c in classes:
+            ops.append(["query", 0, ["ancestors", c]])
     return ops
 
 
@@ -846,6 +871,8 @@ def gen_program(rng, stream: str) -> dict:
             counter[k] += 1
             nm = {"dataclass": "C", "enum": "E", "plain": "P"}[k] + str(counter[k])
             decls.append({"name": nm, "kind": k, "bases": [], "fields": [], "kw_only": True})
+            if k == "enum" and rng.chance(0.3):
+                decls[-1]["meta"] = True
         dcs = [d["name"] for d in decls if d["kind"] == "dataclass"]
         cls_targets = [d["name"] for d in decls if d["kind"] != "enum"]
         enum_targets = [d["name"] for d in decls if d["kind"] == "enum"]
@@ -1023,7 +1050,7 @@ def finish_case(case: dict) -> dict:
 # ---------------------------------------------------------------------------------------- classification sweep
 def enum_annotations(depth: int = 2) -> List[tuple]:
     """every annotation of the grammar (supported and unsupported constructors) up to depth 2, in typing's normal form"""
-    leaves = [("B", i) for i in range(6)] + [("C", "C1"), ("C", "P1"), ("E", "E1"), ("F", "C1"), ("F", "E1")] + \
+    leaves = [("B", i) for i in range(6)] + [("C", "C1"), ("C", "P1"), ("E", "E1"), ("E", "E2"), ("F", "C1"), ("F", "E1")] + \
              [("Bare", o) for o in (4, 5, 6, 7, 8, 9)]
 
     def wraps(t):
@@ -1050,6 +1077,7 @@ def enum_annotations(depth: int = 2) -> List[tuple]:
 
 
 CLASSIFY_DECLS = [{"name": "E1", "kind": "enum", "bases": [], "fields": []},
+                  {"name": "E2", "kind": "enum", "meta": True, "bases": [], "fields": []},
                   {"name": "P1", "kind": "plain", "bases": [], "fields": []},
                   {"name": "C1", "kind": "dataclass", "bases": [], "fields": [], "kw_only": True}]
 
@@ -1313,6 +1341,10 @@ def check_diagrams(rep, cases: List[dict], model_ok: bool, kf_classes: set, tag:
         if use_coq_spec and pyspec is not None and pyspec != spec:
             rep.oblige("correspondence:spec-vs-independent-reading", False,
                        f"Coq Spec {spec} differs from the get_type_hints reading {pyspec} on {c['decls']}")
+        if st == "namesake_missing" and model_ok and reference is not None and impl[0] == 0 \
+                and predict_missing_namesake(c, reference) != model:
+            rep.oblige("correspondence:predictor", False, f"harness twin of Diagram.shadow differs from the model: "
+                       f"{predict_missing_namesake(c, reference)} vs {model} on {c['classes']}")
         if st == "local_missing":
             # a class is referred to by a name nobody can resolve (defined in a function, absent from the diagram): the
             # Spec is silent; the model predicts what the code does (TypeResolutionError unless no diagram class reads it)
@@ -1329,8 +1361,8 @@ def check_diagrams(rep, cases: List[dict], model_ok: bool, kf_classes: set, tag:
                 if cls == "other" or (cls not in kf_classes or (model_ok and impl != model)):
                     rep.violation(dict(base, kind="counterexample", part="edges", impl=impl, spec=pyspec, model=model,
                                        explanation="differs from the independent reading in a way no listed class explains"))
-        elif st == "namesake_missing" and reference is not None and impl != reference and model_ok and impl == model \
-                and "K_missing_namesake" in kf_classes:
+        elif st == "namesake_missing" and reference is not None and impl != reference and "K_missing_namesake" in kf_classes \
+                and ((model_ok and impl == model) or (not model_ok and impl == predict_missing_namesake(c, reference))):
             # open findings C17-e / C17-f, exactly as the faithful model predicts (Diagram.shadow)
             dist["kf_instances"]["K_missing_namesake"] = dist["kf_instances"].get("K_missing_namesake", 0) + 1
         elif reference is not None and impl != reference:
@@ -1396,7 +1428,7 @@ def check_diagrams(rep, cases: List[dict], model_ok: bool, kf_classes: set, tag:
                         break
                     if op[1] < len(prev):
                         want = expected_answer(snaps[op[1]], op[2], c["ids"])
-                        if op[2][0] in ("nodes", "associations", "inheritance", "outedges", "outnb", "innb"):
+                        if op[2][0] in ("nodes", "associations", "inheritance", "outedges", "outnb", "innb", "ancestors"):
                             dist["answers_compared"] = dist.get("answers_compared", 0) + 1
                         if ans != want:
                             on_source = root[op[1]] == 0
@@ -1420,7 +1452,8 @@ def check_diagrams(rep, cases: List[dict], model_ok: bool, kf_classes: set, tag:
                     root.append(root[op[1]])
                 prev = snaps
             if model_ok and not flagged and len(trace) == len(c["ops"]):
-                impl_trace = [[e[0]] if op[0] == "query" else [e[0], e[1]] for op, e in zip(c["ops"], trace)]
+                impl_trace = [[e[0][0] if op[2][0] == "ancestors" and e[0] else e[0]] if op[0] == "query" else [e[0], e[1]]
+                              for op, e in zip(c["ops"], trace)]
                 if impl_trace != model_trace:
                     rep.oblige("correspondence:views-model", False,
                                f"answers / snapshots of the derived diagrams differ from the model: impl={impl_trace} model={model_trace} on {c['decls']} {c['classes']} {c['ops']}")
@@ -1439,6 +1472,37 @@ def check_diagrams(rep, cases: List[dict], model_ok: bool, kf_classes: set, tag:
         dist["fields_classified"] = len(items)
     dist["suppressed_repeats"] = {k: n for k, n in seen_parts.items() if n > (4 if k.startswith("v:") else 1)}
     return dist
+
+
+def predict_missing_namesake(case, spec) -> Any:
+    """What the recorded defect C17-e/f does to the Spec's graph (the harness twin of Diagram.shadow / sh_of, used only when the
+    Coq model is not available): for a diagram class c whose module lacks a name N (hidden), every leaf of c's own and inherited
+    fields whose class has the __name__ of N denotes the LAST diagram class of that __name__."""
+    ids, decls = case["ids"], {d["name"]: d for d in case["decls"]}
+    py = {n: d.get("pyname", n) for n, d in decls.items()}
+    nodes = list(case["classes"])
+    edges = [e for e in spec[1][1] if e[0] == 0]
+    for c in nodes:
+        chain, k = [], c
+        while k is not None:
+            chain.append(k)
+            k = decls[k]["bases"][0] if decls[k]["bases"] else None
+        missing = {py[leaf[1]] for k in chain for f in decls[k]["fields"] for leaf in [_leaf(tt(f["ann"]))]
+                   if leaf[0] == "F" and leaf[1] in decls[k].get("hidden", [])}
+        for k in chain:
+            for f in decls[k]["fields"]:
+                if f["name"].startswith("_"):
+                    continue
+                leaf = _leaf(tt(f["ann"]))
+                if leaf[0] not in ("C", "E", "F"):
+                    continue
+                target = leaf[1]
+                if py[target] in missing:
+                    same = [n for n in nodes if py[n] == py[target]]
+                    target = same[-1] if same else target
+                if target in nodes:
+                    edges.append([1, ids[c], ids[target], ids[f["name"]]])
+    return [0, [[ids[n] for n in nodes], sorted(edges)]]
 
 
 def classify_unsupported_diff(case, impl, pyspec) -> str:
@@ -1476,6 +1540,25 @@ def replay_finding(rep, f, model_ok: bool) -> None:
     impl = r.get("build")
     pyspec = [0, r.get("pyspec")]
     model = v[2][0] if model_ok else None
+    if f.cls == "K_parallel_ancestors":
+        trace = r.get("trace") or []
+        ok_trace = impl is not None and impl[0] == 0 and len(trace) == len(case["ops"]) and not any(s and s[0] == "error" for s in trace)
+        wrong = [(op, e[0]) for op, e in zip(case["ops"], trace) if ok_trace and op[0] == "query" and op[2][0] == "ancestors"
+                 and e[0] != expected_answer(e[1][op[1]], op[2], case["ids"])]
+        as_model = model_ok and ok_trace and all([e[0][0]] == m for op, e, m in zip(case["ops"], trace, v[2][1])
+                                                 if op[0] == "query" and op[2][0] == "ancestors")
+        if f.kind == "open":
+            if wrong and (as_model or not model_ok):
+                rep.known(f)
+            elif ok_trace and not wrong:
+                rep.note(f"{f.fid}: witness no longer fails (finding appears repaired)")
+            else:
+                rep.violation({"kind": "counterexample", "part": "views", "case": w["case"], "impl": trace, "python": snippet(case),
+                               "explanation": f"witness of {f.fid} fails differently from what the faithful model predicts"})
+        elif wrong or not ok_trace:
+            rep.violation({"kind": "counterexample", "part": "views", "regression_of": f.fid, "case": w["case"], "impl": trace,
+                           "python": snippet(case)})
+        return
     if f.cls == "K_subdiagram_shallow":
         trace = r.get("trace") or []
         broken = impl is None or impl[0] != 0 or len(trace) != len(case["ops"]) or any(s and s[0] == "error" for s in trace) \
